@@ -32,6 +32,7 @@ type codecInput struct {
 	Nest    *nestSpec       `json:"nest,omitempty"`
 	Builder *uint64         `json:"builder_seed,omitempty"`
 	MadeFor string          `json:"made_for,omitempty"`
+	NF      bool            `json:"nf,omitempty"` // generated as a normal-form document (C01's domain)
 }
 
 func (in codecInput) data() []byte {
@@ -98,7 +99,7 @@ func badReplay(prop string, err error) *oracleResult {
 }
 
 func docInput(d cdoc) codecInput {
-	return codecInput{Kind: d.kind, Doc: json.RawMessage(d.doc.bytes())}
+	return codecInput{Kind: d.kind, Doc: json.RawMessage(d.doc.bytes()), NF: d.nf && d.phase != 3}
 }
 
 func clip(b []byte) string {
@@ -511,7 +512,19 @@ func checkC06(in codecInput) []cfinding {
 				observed: clip(out), expected: clip(first)})
 		}
 	}
-	return wellFormed(in.Kind, first)
+	fs := wellFormed(in.Kind, first)
+	if in.NF {
+		// "it never emits text that parses to something other than what the model holds": for a normal-form document the text
+		// just emitted, decoded and encoded again, is the same text
+		if v2, err, pan := safeDecode(in.Kind, first); err == nil && pan == "" {
+			if second, err, pan := safeEncode(v2); err == nil && pan == "" {
+				if eq, at := jsonEqual(first, second); !eq {
+					fs = append(fs, cfinding{shape: "reparse-differs", what: "the encoding of a decoded normal-form document decodes to a value that encodes differently, at " + at, observed: clip(second), expected: clip(first)})
+				}
+			}
+		}
+	}
+	return fs
 }
 
 func checkC06Builder(in codecInput) []cfinding {
